@@ -324,18 +324,18 @@ func Gen(r *rand.Rand, o GenOpts) *Doc {
 		}
 		from := r.Intn(len(d.Lines))
 		to := (from + 1 + r.Intn(len(d.Lines)-1)) % len(d.Lines)
-		for _, cb := range d.Lines[from].Taxes {
+		for ci, cb := range d.Lines[from].Taxes {
 			if cb.Percent == nil {
 				continue
 			}
 			if cb.Surcharge == nil && r.Intn(2) == 0 {
+				// on this very combo only: a surcharge next to no percentage is refused by
+				// tax.Combo's validation ("required with percent") and, since exempt rows are
+				// grouped whatever their surcharge, would make the group depend on row order
+				// (false alarm of the background sweep, C17 thorough seed 31)
 				s := pick(r, surChoices)
 				cb.Surcharge = &s
-				for i := range d.Lines[from].Taxes {
-					if d.Lines[from].Taxes[i].Cat == cb.Cat {
-						d.Lines[from].Taxes[i].Surcharge = &s
-					}
-				}
+				d.Lines[from].Taxes[ci].Surcharge = &s
 			}
 			cp := cb
 			cp.Percent, cp.Surcharge = respell(cb.Percent), respell(cb.Surcharge)
